@@ -57,6 +57,43 @@ def directed_cases(tier, seed):
     return out
 
 
+def systematic_cases(binary, tier, seed):
+    """delay-bounded systematic exploration of the directed 3-rank scenario: from a few seeded base schedules, every
+    single deviation (choose the next / next-but-one enabled action instead of the seeded one) at every scheduling
+    decision after the first barrier entry, plus random pairs of deviations in the thorough tier"""
+    rng = T.Rng(seed * 4099 + 11)
+    params = {"maxfan": 2, "hprog": 0, "hcb": 0, "hbc": 0}
+    out = []
+    bases = 2 if tier == "quick" else 8
+    cap = 40 if tier == "quick" else 400
+    for bi in range(bases):
+        a, b, c = [(0, 1, 2), (1, 2, 0)][bi % 2]
+        uid = T.find_root_uid(3, params, [8], [b, c], start=(1 << 20) + 3000 + 17 * bi)
+        ops = [(0, c, "async", uid, a, 8, 1)] + [(0, b, "progress")] * (bi % 3)
+        sc = T.Scenario(3, 1, params, [8], ops)
+        base = T.Config(1, 3, "NONE", 0, irecvs=8, isends_wait=rng.choice([0, 4]), issend=0, policy="uniform", eager=100, sim_seed=rng.below(1 << 30))
+        sr = T.run(binary, sc, base, timeout=60)
+        if sr.verdict != "ok":
+            out.append((sc, base))
+            continue
+        hev, _ = T.parse(sr.log)
+        first_enter = min([int(sr.log[ev.t].split(" ", 1)[0]) for ev in hev if ev.kind == "E"] or [0])
+        total = sr.steps
+        js = list(range(max(0, first_enter - 1), total))
+        stride = max(1, (2 * len(js)) // cap)
+        for j in js[::stride]:
+            for dv in (1, 2):
+                cfg = T.Config.from_json(base.to_json())
+                cfg.deviate = {j: dv}
+                out.append((sc, cfg))
+        if tier == "thorough":
+            for _ in range(cap // 2):
+                cfg = T.Config.from_json(base.to_json())
+                cfg.deviate = {rng.choice(js): 1 + rng.below(2), rng.choice(js): 1 + rng.below(2)}
+                out.append((sc, cfg))
+    return out
+
+
 def dtor_runs(res, tier, seed):
     """implicit barriers: containers destroyed right after issuing asynchronous operations (harness/dtor.cpp)"""
     import re
@@ -130,7 +167,8 @@ def run(tier, seed, model_ok=True):
     if binary is None:
         res.corr_failures.append({"relation": "harness builds against /repo", "what": err[-800:], "case": None})
         return res
-    K.run_cases(res, binary, cases(tier, seed) + directed_cases(tier, seed), WANT, extra=extra if model_ok else None)
+    K.run_cases(res, binary, cases(tier, seed) + directed_cases(tier, seed) + systematic_cases(binary, tier, seed), WANT,
+                extra=extra if model_ok else None)
     dtor_runs(res, tier, seed)
     if res.oracle_failures and "scenario" in (res.oracle_failures[0].get("case") or {}):
         res.oracle_failures[0] = K.shrink(binary, res.oracle_failures[0], WANT)
